@@ -49,7 +49,7 @@ def guard(cfg, lt):
 
 
 def run_history(desc):
-    cfg = dict(desc["cfg"], scale=1.0)  # drivers are set explicitly in the history
+    cfg = dict(desc["cfg"], scale=1.0, int_driver=False)  # drivers are set explicitly (floats written in place)
     U = sg.universe_of(cfg)
     shape = tuple(len(d["items"]) for d in U["dims"])
     n = int(np.prod(shape))
